@@ -62,7 +62,7 @@ def main():
     #     `git -C /repo apply`, run, `git -C /repo checkout -- .`
     patch = src / "patch.diff"
     in_repo = "--in-repo" in sys.argv
-    sv = Path(f"/tmp/sv_{sid}")
+    sv = Path(f"/tmp/sv_{sid}_{os.getpid()}")     # per process: a background sweep and an interactive recheck never share a tree
     if in_repo:
         target, env = Path("/repo"), ""
     else:
